@@ -101,3 +101,10 @@ impl SnmpPriv for Aes128Key {
         Ok(scoped_pdu)
     }
 }
+
+#[cfg(feature = "verif")]
+impl Aes128Key {
+    pub fn verif_set_salt(&mut self, v: u64) {
+        self.salt_value = v;
+    }
+}
